@@ -479,6 +479,10 @@ class Profile:
         try:
             service_index = self.__services.index(service)
 
+            # Lay the service out again from its own handle: a descriptor added
+            # to one of its characteristics moves everything declared after it.
+            service.handle = service.handle
+
             # Forget every attribute registered from this service's handle on:
             # the service may have grown or shrunk since it was registered and
             # the services declared after it are about to move.
